@@ -25,12 +25,26 @@ MANIFEST = dict(
           "linear / quadratic along descent directions (t0 > 0 and finite is refuted with witnesses reproduced on the library: 0 by "
           "underflow / dg = -inf, +inf and -inf from lsearch0-cgdescent), the clamp of lsearchk_t::get maps EVERY t0 into [stpmin, 1], the "
           "success theorems for the composed search, at most one extra evaluation per iteration. Every t0 of recorded call sequences "
-          "(crafted states, whole runs of 17 solvers, the real lsearch_t iterated) is reproduced bit for bit by the extracted machine."),
-    note=("Coq kernel + primitive floats (= IEEE binary64 of the host); translator (79 kernels incl. 46 of src/lsearch0*.cpp / lsearch.h, "
+          "(crafted states, whole runs of 17 solvers, the real lsearch_t iterated) is reproduced bit for bit by the extracted machine. "
+          "QUAD extension: the exact-arithmetic core of 'all five searches succeed on convex quadratics' -- the same algorithms read over the "
+          "ordered field Q (C07_Quad_Defs.v, every expression the exact-rational reading of the translated source tree) on phi(t) = f0 + g0 t + "
+          "(a/2) t^2: proved for all inputs the closed-form acceptance regions (Armijo iff 0 <= t <= 2(1-c1)t*, Wolfe iff t >= (1-c2)t*, strong "
+          "Wolfe iff (1-c2)t* <= t <= (1+c2)t*; Armijo at t* iff c1 <= 1/2 -- the mechanism of the CG_DESCENT finding), success of backtrack "
+          "within N trial steps for any interpolation ((1-s)^N t <= U; N exists for every start; sharper 1 + log_s bound for quadratic "
+          "interpolation, whose interpolant is exact), success of lemarechal within n1 + n2 steps, More-Thuente's convergence test = the "
+          "closed-form region, CG_DESCENT's first secant step = t* accepted iff c1 <= 1/2. The proved regions and bounds are applied to the "
+          "real searches on exactly representable quadratics, and the extracted rational model must make the library's probes exactly "
+          "whenever every value of the run is exactly representable."),
+    note=("Coq kernel + primitive floats (= IEEE binary64 of the host); translator (98 kernels incl. 46 of src/lsearch0*.cpp / lsearch.h and 19 of the QUAD extension, "
           "PrimFloat reading derived in tools/checks/c07.py, std::min/std::max read as libstdc++ defines them); extraction "
           "(ExtrOcamlBasic, ExtrOCamlFloats); recording function_t / recording lsearch0_t harnesses + OCaml driver; the Eigen reductions "
           "g.d, |x|_inf, |g|_inf, g.g are inputs taken from the run; 'succeeds on convex quadratics', 't > 0' and 'lsearch0 returns a "
-          "finite positive step' are searched, not proved (the last one is false: reported as a candidate finding, hidden by the clamp)."),
+          "finite positive step' are searched, not proved (the last one is false: reported as a candidate finding, hidden by the clamp). "
+          "QUAD extension: 19 more kernels and their exact-rational reading (gen_q_twin); extraction of the rational model with "
+          "ExtrOcamlZBigInt + Z.ggcd mapped to Zarith's gcd (as C01Q); ocaml/c07q_driver.ml (exact double -> rational conversion, the rule "
+          "'all values small dyadics => every binary64 operation exact'); harness/c07_quad.cpp. The theorems are exact-arithmetic statements: "
+          "on binary64 the success clause stays searched (bounds checked with a 1e-6 margin); fletcher's and More-Thuente's / CG_DESCENT's "
+          "iterations have no success theorem (fletcher's exact model is compared, their success on the family is searched)."),
     technique="Coq proof over a translated+extracted PrimFloat model, bit-exact differential replay, direct oracle",
     design="DESIGN.md section 2, C07")
 
@@ -149,6 +163,65 @@ def gen_float_twin():
     return n
 
 
+def _emit_q(e):
+    """exact-rational reading (QUAD extension): same trees over Coq's Q; comparisons are decidable booleans"""
+    k = e[0]
+    if k == "atom":
+        return e[1]
+    if k == "if":
+        return "(if %s then %s else %s)" % (_emit_q(e[1]), _emit_q(e[2]), _emit_q(e[3]))
+    if k == "neg":
+        return "(- %s)" % _emit_q(e[1])
+    if k == "bin":
+        return "(%s %s %s)" % (_emit_q(e[2]), e[1], _emit_q(e[3]))
+    f, args = e[1], [_emit_q(a) for a in e[2]]
+    if f in ("negb", "andb", "orb"):
+        return "(%s %s)" % (f, " ".join(args))
+    if len(args) == 2:
+        a, b = args
+        table = {"Z.quot": "(%s / %s)" % (a, b), "Z.ltb": "(qltb %s %s)" % (a, b),
+                 "Z.leb": "(Qle_bool %s %s)" % (a, b), "Z.gtb": "(qltb %s %s)" % (b, a),
+                 "Z.geb": "(Qle_bool %s %s)" % (b, a), "Z.eqb": "(Qeq_bool %s %s)" % (a, b),
+                 "Z.min": "(if qltb %s %s then %s else %s)" % (b, a, b, a),
+                 "Z.max": "(if qltb %s %s then %s else %s)" % (a, b, b, a)}
+        if f in table:
+            return table[f]
+    raise vlib.CheckError("rational reading: %s has no Q reading" % f)
+
+
+def gen_q_twin():
+    """Src_c07.v -> Src_c07_q.v: the same translated expression trees read over the ordered field Q (exact arithmetic):
+    + - * stay, Z.quot -> Qdiv, < and <= -> qltb / Qle_bool (>, >= with swapped arguments), std::min / std::max as libstdc++
+    defines them. This is what C07_Quad_Defs.v imports."""
+    gen = os.path.join(vlib.COQ, "generated")
+    path_z = os.path.join(gen, "Src_c07.v")
+    if not os.path.exists(path_z):
+        raise vlib.CheckError("rational reading: Src_c07.v was not generated")
+    src = open(path_z).read()
+    parts = ["(* GENERATED by tools/checks/c07.py from Src_c07.v (itself generated from /repo's working tree) -- do not edit.\n"
+             "   Exact-rational reading of the translated line-search kernels: same expression trees over the ordered field Q. *)\n"
+             "From Coq Require Import Bool ZArith QArith.\nLocal Open Scope Q_scope.\n\n"
+             "Definition qltb (a b : Q) : bool := negb (Qle_bool b a).\n"]
+    n = 0
+    for m in re.finditer(r"^(\(\* [^\n]*\*\)\n)Definition (\w+) ((?:\([^)]*\) ?)*) ?: (\w+) := (.*)\.$", src, re.M):
+        cm, name, args, ty, body = m.groups()
+        toks = _tok(body)
+        ast, i = _parse(toks, 0)
+        if i != len(toks):
+            raise vlib.CheckError("rational reading: trailing tokens in %s" % name)
+        args = args.replace(": Z)", ": Q)")
+        ty = "Q" if ty == "Z" else ty
+        parts.append("%sDefinition %s_q %s: %s := %s.\n" % (cm, name, args, ty, _emit_q(ast)))
+        n += 1
+    if n == 0:
+        raise vlib.CheckError("rational reading: no kernel found in Src_c07.v")
+    txt = "\n".join(parts)
+    path = os.path.join(gen, "Src_c07_q.v")
+    if not os.path.exists(path) or open(path).read() != txt:
+        open(path, "w").write(txt)
+    return n
+
+
 def coq_side():
     """translator -> PrimFloat reading -> full Coq check"""
     import translate
@@ -159,9 +232,10 @@ def coq_side():
         pass  # reported by coq_check below (same call, same error)
     try:
         gen_float_twin()
+        gen_q_twin()
     except vlib.CheckError as ex:
         twin_err = str(ex)
-    cres = vlib.coq_check("C07", targets=["theories/Extract_C07.vo", "theories/Properties_C07.vo"])
+    cres = vlib.coq_check("C07", targets=["theories/Extract_C07.vo", "theories/Extract_C07Q.vo", "theories/Properties_C07.vo"])
     if twin_err and cres["ok"]:
         cres["ok"] = False
         cres["broken"] = "float-reading:" + twin_err
@@ -170,17 +244,49 @@ def coq_side():
 
 HARNESS = "c07_lsearch"
 INIT_HARNESS = "c07_init"
+QUAD_HARNESS = "c07_quad"
 INIT_T0_FP = "C07-lsearch0-t0-not-finite-positive"
 STALE_FP = "C07-success-with-stale-invalid-state"
 CGHALF_FP = "C07-cgdescent-fails-on-quadratic-c1-ge-half"
 
 
+def _build_qdriver():
+    """QUAD stage: the extracted exact-rational model uses Zarith (ExtrOcamlZBigInt): private variant of vlib.build_ocaml (as C01Q / C09 /
+    C14); the extracted module shadows Zarith's Z, which the driver reaches as ZZ (and Q as QQ)"""
+    odir = os.path.join(vlib.WORK, "ocaml")
+    os.makedirs(odir, exist_ok=True)
+    exe = os.path.join(odir, "c07q_driver")
+    model = os.path.join(vlib.COQ, "extracted", "c07q_model.ml")
+    driver = os.path.join(vlib.ROOT, "ocaml", "c07q_driver.ml")
+    with vlib.Lock("ocaml-c07q_driver"):
+        srcs = [model, model + "i", driver]
+        for x in srcs:
+            if not os.path.exists(x):
+                raise vlib.CheckError("missing %s (extraction failed?)" % x)
+        if os.path.exists(exe) and all(os.path.getmtime(x) <= os.path.getmtime(exe) for x in srcs):
+            return exe
+        bd = os.path.join(odir, "c07q_driver.build")
+        vlib.sh("rm -rf %s && mkdir -p %s" % (shlex.quote(bd), shlex.quote(bd)))
+        for x in (model, model + "i"):
+            vlib.sh("cp %s %s/" % (shlex.quote(x), shlex.quote(bd)))
+        with open(os.path.join(bd, "driver_main.ml"), "w") as f:
+            f.write("module ZZ = Z\nmodule QQ = Q\nopen C07q_model\n# 1 \"c07q_driver.ml\"\n")
+            f.write(open(driver).read())
+        cmd = "ocamlfind ocamlopt -O3 -w -a -package zarith -linkpkg c07q_model.mli c07q_model.ml driver_main.ml -o %s" % shlex.quote(exe)
+        rc, out = vlib.sh(cmd, cwd=bd, timeout=600)
+        if rc != 0:
+            raise vlib.CheckError("ocaml build of c07q_driver failed:\n%s" % out[-3000:])
+    return exe
+
+
 def setup():
     vlib.build_harness(HARNESS, "rel", need_lib=True)
     vlib.build_harness(INIT_HARNESS, "rel", need_lib=True)
+    vlib.build_harness(QUAD_HARNESS, "rel", need_lib=True)
     try:
         coq_side()
         vlib.build_ocaml("c07_driver", "c07_model.ml", "c07_driver.ml", floats=True)
+        _build_qdriver()
     except (vlib.CheckError, OSError):
         pass
 
@@ -311,6 +417,110 @@ def _init_stage(r, tier, drv, candidates):
             "t0_classes_by_kind(0 constant 1 linear 2 quadratic 3 cgdescent)": hists.get("init_t0_classes", {}), "driver": init_done, "samples": samples}
 
 
+def _quad_stage(r, tier, cres):
+    """QUAD stage: the real searches on 1-D convex quadratics with exactly representable data (harness/c07_quad.cpp): the proved
+    closed-form regions / iteration bounds / CG_DESCENT secant step applied directly to the implementation (FAIL lines), and the
+    extracted exact-rational model (C07_Quad_Defs.v over Zarith) compared with the library: exact agreement is demanded whenever every
+    value of the run is a small dyadic (every binary64 operation exact), counted otherwise"""
+    exe = vlib.build_harness(QUAD_HARNESS, "rel", need_lib=True)
+    rundir = os.path.join(vlib.WORK, "c07")
+    os.makedirs(rundir, exist_ok=True)
+    out_path = os.path.join(rundir, "quad-%d-%s.txt" % (r.seed, tier))
+    drv_path = os.path.join(rundir, "quaddrv-%d-%s.txt" % (r.seed, tier))
+    rc, err = vlib.sh("%s %s > %s" % (shlex.quote(exe), shlex.quote(tier), shlex.quote(out_path)), timeout=3000,
+                      env={"VERIF_SEED": str(r.seed)})
+    fails, done, last, samples = [], [], [], []
+    n_runs = 0
+    nontriv = set()
+    with open(out_path, errors="replace") as f:
+        for l in f:
+            l = l.rstrip("\n")
+            if l.startswith("QUAD "):
+                n_runs += 1
+                nontriv.add(vlib.sha(l.split(" ", 2)[2]))
+                if len(samples) < 3:
+                    samples.append(l[:400])
+            elif l.startswith("FAIL "):
+                fails.append(l)
+            elif l.startswith("DONE "):
+                done.append(l)
+            last = (last + [l[:600]])[-4:]
+    replay_cmd = lambda cid: "VERIF_SEED=%d %s %s %s" % (r.seed, exe, tier, cid)
+
+    def case_of(cid):
+        if not str(cid).isdigit():
+            return ""
+        rc_, out_ = vlib.sh([exe, tier, str(cid)], timeout=300, env={"VERIF_SEED": str(r.seed)})
+        return "\n".join(x[:3000] for x in out_.split("\n") if x.startswith("QUAD "))[:4000]
+
+    meaning = ("QUAD id | alg(0 backtrack 1 lemarechal 2 fletcher 3 morethuente 4 cgdescent) max_iterations interpolation(0 bisection 1 quadratic 2 cubic) "
+               "c1 c2 safeguard tau1 tau2 tau3 cg_epsilon | f0 g0 a t0 (phi(t) = f0 + g0 t + a/2 t^2, x0 = 0, d = 1) | ok t | probes t,f,dg")
+    if rc != 0 or not done:
+        r.violation("quadx-crash", {"kind": "QUAD harness crashed / did not finish", "exit": rc, "stderr": err[-1500:], "last_lines": last,
+                                    "replay_cmd": "VERIF_SEED=%d %s %s" % (r.seed, exe, tier)}, fingerprint="crash")
+    for i, l in enumerate(fails[:3]):
+        cid = _case_id(l)
+        r.violation("quadx-impl-%d" % i, {"kind": "a statement PROVED for the exact-arithmetic model on convex quadratics (closed-form acceptance region / iteration bound "
+                                                  "of backtrack or lemarechal / first secant step of CG_DESCENT = exact minimiser) fails on the implementation, "
+                                                  "with a 1e-6 relative margin for binary64 rounding", "failure": l[:1500], "case": case_of(cid),
+                                          "replay_cmd": replay_cmd(cid), "meaning": meaning})
+    n_mism, checked, hist, model_done = 0, 0, {}, ""
+    drv = None
+    try:
+        drv = _build_qdriver()
+    except (vlib.CheckError, OSError):
+        if cres["ok"]:
+            raise
+    if drv:
+        rc2, derr = vlib.sh("%s < %s > %s" % (shlex.quote(drv), shlex.quote(out_path), shlex.quote(drv_path)), timeout=3000)
+        mism = []
+        with open(drv_path, errors="replace") as f:
+            for l in f:
+                l = l.rstrip("\n")
+                if l.startswith(("MISMATCH", "PROPFAIL")):
+                    n_mism += 1
+                    if len(mism) < 200:
+                        mism.append(l)
+                elif l.startswith("HIST "):
+                    p = l.split(" ")
+                    hist = {kv.rpartition("=")[0]: int(kv.rpartition("=")[2]) for kv in p[2:]}
+                elif l.startswith("MODEL-DONE"):
+                    model_done = l
+                    checked = int(l.split("checked=")[1].split()[0])
+        if rc2 != 0 or not checked:
+            r.violation("quadx-driver", {"kind": "exact-rational model driver failed on the QUAD stage", "out": derr[-2000:]}, no_input=True)
+        prop = [l for l in mism if l.startswith("PROPFAIL")]
+        corr = [l for l in mism if l.startswith("MISMATCH")]
+        for i, l in enumerate(prop[:3]):
+            cid = l.split(" ")[2] if len(l.split(" ")) > 2 else "?"
+            r.violation("quadx-prop-%d" % i, {"kind": "a proved iteration bound / region / secant statement of C07_Quad.v, evaluated in exact arithmetic by the extracted bound "
+                                                      "functions, fails on the library's run although every value of the run is exactly representable",
+                                              "case": l[:3000], "replay_cmd": replay_cmd(cid), "meaning": meaning})
+        for i, l in enumerate(corr[:3]):
+            cid = l.split(" ")[2] if len(l.split(" ")) > 2 and l.split(" ")[1] == "QUAD" else "?"
+            r.violation("quadx-corr-%d" % i, {"kind": "exact-rational model / implementation disagreement on a run whose every value is exactly representable in binary64 "
+                                                      "(same probes, same (ok, t) demanded)", "case": l[:3000], "replay_cmd": replay_cmd(cid), "meaning": meaning},
+                        no_input=not (fails or prop))
+    for pth in (out_path, drv_path):
+        try:
+            os.remove(pth)
+        except OSError:
+            pass
+    st = {}
+    if done:
+        for kv in done[-1].split()[1:]:
+            k, _, v = kv.partition("=")
+            st[k] = int(v) if v.isdigit() else v
+    cert = sum(v for k, v in hist.items() if k.startswith("qagree:certified_"))
+    unc_agree = sum(v for k, v in hist.items() if k.startswith("qagree:uncertified_agree_"))
+    unc_other = sum(v for k, v in hist.items() if k.startswith("qagree:uncertified_") and not k.startswith("qagree:uncertified_agree_"))
+    return {"runs": n_runs, "distinct_runs": len(nontriv), "correspondence_lines_checked": checked, "mismatches": n_mism, "impl_direct_failures": len(fails),
+            "harness_counts": st, "driver_histogram": hist, "driver": model_done,
+            "exact_model_vs_library(backtrack/lemarechal/fletcher)": {"certified_exact_and_equal(demanded)": cert, "uncertified_but_identical": unc_agree,
+                                                                      "uncertified_differing(rounding)": unc_other},
+            "samples": samples}
+
+
 def run(tier, replay=None):
     r = vlib.Run("C07", tier)
     # 2. Coq: translated kernels (+ PrimFloat reading) + theorems (+ extraction target, built even if a proof breaks)
@@ -437,6 +647,7 @@ def run(tier, replay=None):
         hists = {}
         evalb = {}
     init_cov = _init_stage(r, tier, drv, candidates)
+    quad_cov = _quad_stage(r, tier, cres)
     for pth in (out_path, drv_path):       # several hundred MB in the thorough tier; every replay_cmd regenerates its case
         try:
             os.remove(pth)
@@ -444,12 +655,13 @@ def run(tier, replay=None):
             pass
     vlib.handle_coq_failure(r, cres)
     vlib.proof_coverage(r, cres, "make -C coq theories/Properties_C07.vo && coqc theories/Properties_C07.v (Print Assumptions)",
-                        ["tools/translate.py (79 kernels of state.cpp/state.h/lstep.cpp/lsearchk.cpp/morethuente.cpp/cgdescent.cpp and, INIT stage, src/lsearch0.cpp, src/lsearch0/{constant,linear,quadratic,cgdescent}.{cpp,h}, solver/lsearch.h) + structural PrimFloat reading (tools/checks/c07.py: gen_float_twin; std::min/std::max as libstdc++ defines them)",
+                        ["tools/translate.py (98 kernels of state.cpp/state.h/lstep.cpp/lsearchk.cpp/morethuente.cpp/cgdescent.cpp and, INIT stage, src/lsearch0.cpp, src/lsearch0/{constant,linear,quadratic,cgdescent}.{cpp,h}, solver/lsearch.h) + structural PrimFloat reading (tools/checks/c07.py: gen_float_twin; std::min/std::max as libstdc++ defines them)",
                          "INIT stage: hand-written control flow of the four lsearch0_t::get and of lsearch_t::get in C07_Init_Defs.v (tied by the bit-exact replay of every recorded call sequence); harness/c07_init.cpp (recording lsearch0_t wrapper, states injected through solver_state_t::update(x, gx, fx)); |x|_inf, |g|_inf, g.g taken from the run",
                          "Coq primitive floats = IEEE-754 binary64 of the host (PrimFloat.* in Print Assumptions)",
                          "extraction: ExtrOcamlBasic, ExtrOCamlFloats (coq-core.kernel Float64)",
                          "hand-written control flow of the five searches in C07_Defs.v (tied by the bit-exact replay of every run)",
-                         "ocaml/c07_driver.ml, harness/c07_lsearch.cpp (recording function_t), g++ -O2 (no -ffast-math, no FMA)"])
+                         "ocaml/c07_driver.ml, harness/c07_lsearch.cpp (recording function_t), g++ -O2 (no -ffast-math, no FMA)",
+                         "QUAD stage: exact-rational reading of the kernels (tools/checks/c07.py: gen_q_twin), hand-written control flow of C07_Quad_Defs.v (tied to the library on the exactly representable family), Extract_C07Q.v (ExtrOcamlZBigInt, Z.ggcd -> Zarith gcd), ocaml/c07q_driver.ml (certification rule: all values small dyadics), harness/c07_quad.cpp"])
     cov = r.coverage
     st = {}
     if done:
@@ -479,6 +691,12 @@ def run(tier, replay=None):
     cov["evaluations"] += init_cov["calls"]
     cov["distinct_nontrivial"] += init_cov["distinct_calls"]
     cov["correspondence_lines_checked"] += init_cov["correspondence_lines_checked"]
+    cov["quad_stage"] = quad_cov
+    cov["mismatches"] += quad_cov["mismatches"]
+    cov["impl_direct_failures"] += quad_cov["impl_direct_failures"]
+    cov["evaluations"] += quad_cov["runs"]
+    cov["distinct_nontrivial"] += quad_cov["distinct_runs"]
+    cov["correspondence_lines_checked"] += quad_cov["correspondence_lines_checked"]
     cov["candidate_findings"] = candidates
     cov["samples"] = samples
     cov["unproved_clauses_searched"] = [
@@ -498,6 +716,13 @@ def run(tier, replay=None):
         "descent states are the candidate finding " + INIT_T0_FP + "; proved instead: 0 <= t0 <= 1 for linear / quadratic, and "
         "clamp(t0) in [stpmin, 1] for every t0)",
         "INIT: 0 < |g|_inf and 0 < g.g for a descent direction (facts about the Eigen reductions, hypotheses of C07_init_cgdescent_first_nonneg)"]
+    cov["unproved_clauses_searched"] += [
+        "QUAD: the success clause on binary64 (the theorems of C07_Quad.v are exact-arithmetic statements; rounding can flip a decision at a region "
+        "boundary): the proved regions / iteration bounds are checked on the real searches with a 1e-6 relative margin, exact agreement with the "
+        "rational model is demanded only on runs whose every value is exactly representable",
+        "QUAD: fletcher (do_get + zoom) and More-Thuente succeed on the exactly representable quadratics with max_iterations >= 128 (no success theorem: "
+        "the zoom invariant is not mechanised; fletcher's exact model is compared with the library); CG_DESCENT beyond its first secant step",
+        "QUAD: sharp iteration bound for cubic interpolation (needs the exactness of sqrt on rational squares)"]
     cov["excluded_inputs"] = ["max_iterations < 100, c1 > 0.99, non-default method parameters, t0 outside [1e-3,1e3] (finite), exact minimiser along d outside "
                               "[1e-10,1e10] (the searches are confined to [stpmin,stpmax]), c1 >= 1/2 with CG_DESCENT: "
                               "success on quadratics not demanded (correspondence and the success-implies-conditions oracle still apply)"]
